@@ -803,4 +803,137 @@ theorem frags_respellS (e : Expr) :
     simp [respell, itemFrags, ihe.1 _ _ h.1, ihc.1 _ _ h.2.1, iht.2.2 _ h.2.2, sharedRep_clean, hrep]
 
 
+/-! ### the prediction `literalSplits` (repair C07-7) is sound: where the printer leaves out the parentheses, the literal is whole -/
+
+theorem afterNl_none (s : List Char) (h : '\n' ∉ s) : afterNl s = none := by
+  induction s with
+  | nil => rfl
+  | cons c r ih =>
+    have hc : c ≠ '\n' := fun hh => h (by simp [hh])
+    have hr : '\n' ∉ r := fun hh => h (List.mem_cons_of_mem _ hh)
+    simp [afterNl, ih hr, hc]
+
+theorem raw_curpos (st : PState) (s : List Char) (h : '\n' ∉ s) : (raw st s).curpos = st.curpos + s.length := by
+  simp [raw, emit, advance, afterNl_none s h]
+
+theorem raw_linelen (st : PState) (s : List Char) : (raw st s).linelen = st.linelen := by simp [raw, emit]
+theorem raw_spaceLast_nonempty (st : PState) (s : List Char) : (raw st s).indent2 = st.indent2 := by simp [raw, emit]
+
+theorem afterNl_breakSepFirst (n : Nat) : afterNl (breakSepFirst n) = some (n + 1) := by
+  have h1 : afterNl (List.replicate n ' ' ++ ['\'']) = none := afterNl_none _ (by simp)
+  simp [breakSepFirst, newlinePiece, afterNl, h1]
+
+/-- pieces after the first: if the prediction says "no split", `breakPieces` inserts no separator -/
+theorem literalSplits_rest (st0 : PState) (sl : Bool) : ∀ (ps : List (List Char)) (st : PState),
+    st.indent2 = st0.indent2 → st.linelen = st0.linelen → (∀ p ∈ ps, '\n' ∉ p) →
+    literalSplits st0 ps st.curpos sl false = false → (breakPieces st ps false).text = st.text ++ ps.flatten := by
+  intro ps
+  induction ps with
+  | nil => intro st _ _ _ _; simp [breakPieces]
+  | cons p ps ih =>
+    intro st hi hl hnl h
+    have hp : '\n' ∉ p := hnl p (by simp)
+    simp only [literalSplits] at h
+    by_cases hc : (decide (st.curpos > st0.indent2) && decide (st.curpos + p.length > st0.linelen)) = true
+    · simp [hc] at h
+    · simp only [hc, Bool.false_eq_true, if_false] at h
+      have hsb : shouldBreak st p.length = false := by
+        simp only [shouldBreak, hi, hl]; simpa using hc
+      have hmb : maybeBreak st p.length false = st := by simp [maybeBreak, hsb]
+      have := ih (raw st p) (by simp [raw_indent2, hi]) (by simp [raw_linelen, hl]) (fun q hq => hnl q (List.mem_cons_of_mem _ hq))
+        (by rw [raw_curpos st p hp]; exact h)
+      simp only [breakPieces, hmb, this, text_raw, List.flatten_cons, List.append_assoc]
+
+/-- all pieces: if the prediction from the current state says "no split", the literal is written in one piece (after at most a
+line break or a blank) -/
+theorem literalSplits_first (st : PState) (p : List Char) (ps : List (List Char)) (hnl : ∀ q ∈ p :: ps, '\n' ∉ q)
+    (h : literalSplits st (p :: ps) st.curpos st.spaceLast true = false) :
+    ∃ W, W.all isWsC = true ∧ (breakPieces st (p :: ps) true).text = st.text ++ W ++ ['\''] ++ (p :: ps).flatten := by
+  have hp : '\n' ∉ p := hnl p (by simp)
+  have hps : ∀ q ∈ ps, '\n' ∉ q := fun q hq => hnl q (List.mem_cons_of_mem _ hq)
+  simp only [literalSplits] at h
+  by_cases hc : (decide (st.curpos > st.indent2) && decide (st.curpos + p.length > st.linelen)) = true
+  · simp only [hc, if_true] at h
+    have hsb : shouldBreak st p.length = true := by simpa [shouldBreak] using hc
+    have hmb : maybeBreak st p.length true = raw st (breakSepFirst st.indent2) := by simp [maybeBreak, hsb]
+    have hcur : (raw (raw st (breakSepFirst st.indent2)) p).curpos = st.indent2 + 2 + p.length := by
+      rw [raw_curpos _ p hp]
+      simp [raw, emit, advance, afterNl_breakSepFirst]
+    have := literalSplits_rest st st.spaceLast ps (raw (raw st (breakSepFirst st.indent2)) p) (by simp [raw_indent2])
+      (by simp [raw_linelen]) hps (by rw [hcur]; exact h)
+    refine ⟨newlinePiece st.indent2, newlinePiece_ws _, ?_⟩
+    simp only [breakPieces, hmb]
+    rw [this]
+    simp [text_raw, breakSepFirst, List.append_assoc]
+  · simp only [hc, Bool.false_eq_true, if_false, if_true] at h
+    have hsb : shouldBreak st p.length = false := by simp only [shouldBreak]; simpa using hc
+    by_cases hsl : st.spaceLast = true
+    · have hmb : maybeBreak st p.length true = raw st ['\''] := by simp [maybeBreak, hsb, hsl]
+      have hcur : (raw (raw st ['\'']) p).curpos = st.curpos + 1 + p.length := by
+        rw [raw_curpos _ p hp, raw_curpos _ _ (by simp)]; simp
+      have := literalSplits_rest st st.spaceLast ps (raw (raw st ['\'']) p) (by simp [raw_indent2]) (by simp [raw_linelen]) hps
+        (by rw [hcur]; simpa [hsl] using h)
+      refine ⟨[], rfl, ?_⟩
+      simp only [breakPieces, hmb]
+      rw [this]
+      simp [text_raw, List.append_assoc]
+    · have hmb : maybeBreak st p.length true = raw st [' ', '\''] := by simp [maybeBreak, hsb, hsl]
+      have hcur : (raw (raw st [' ', '\'']) p).curpos = st.curpos + 2 + p.length := by
+        rw [raw_curpos _ p hp, raw_curpos _ _ (by simp)]; simp
+      have := literalSplits_rest st st.spaceLast ps (raw (raw st [' ', '\'']) p) (by simp [raw_indent2]) (by simp [raw_linelen]) hps
+        (by rw [hcur]; simpa [hsl] using h)
+      refine ⟨[' '], by decide, ?_⟩
+      simp only [breakPieces, hmb]
+      rw [this]
+      simp [text_raw, List.append_assoc]
+
+theorem mem_escQ (c : Char) (s : List Char) (h : c ∈ escQ s) : c ∈ s ∨ c = '\'' := by
+  simp only [escQ] at h
+  split at h
+  · simp only [List.mem_flatMap] at h
+    obtain ⟨x, hx, hc⟩ := h
+    by_cases hq : x = '\''
+    · simp [hq] at hc; exact Or.inr hc
+    · simp [hq] at hc; subst hc; exact Or.inl hx
+  · exact Or.inl h
+
+theorem pieces_no_newline (s : List Char) (hnl : '\n' ∉ s) : ∀ q ∈ splitDots (escQ s), '\n' ∉ q := by
+  intro q hq hc
+  have : '\n' ∈ (splitDots (escQ s)).flatten := List.mem_flatten.mpr ⟨q, hq, hc⟩
+  rw [C07_splitDots_flatten] at this
+  rcases mem_escQ _ _ this with h | h
+  · exact hnl h
+  · cases h
+
+/-- in operand position (`paren = true`): either the literal is written whole — `'…'` after at most a blank or a line break — or
+`breakLongStr` has decided to parenthesise (`splitParen`); an unparenthesised `'a.' + 'b'` cannot arise there -/
+theorem operand_literal_whole_or_paren (st : PState) (s : List Char) (hnl : '\n' ∉ s) :
+    (∃ W tail, W.all isWsC = true ∧ (tail = [] ∨ tail = [' ']) ∧
+        (breakLongStr st s true).text = st.text ++ W ++ ['\''] ++ escQ s ++ ['\''] ++ tail)
+    ∨ splitParen st (splitDots (escQ s)) true = true := by
+  by_cases hpar : splitParen st (splitDots (escQ s)) true = true
+  · exact Or.inr hpar
+  · left
+    unfold breakLongStr
+    simp only []
+    split
+    · by_cases h : st.spaceLast = true
+      · exact ⟨[], [], rfl, Or.inl rfl, by simp [text_raw, h]⟩
+      · exact ⟨[' '], [], by decide, Or.inl rfl, by simp [text_raw, h]⟩
+    · rename_i hlong
+      obtain ⟨p1, ps', hps⟩ : ∃ p1 ps', splitDots (escQ s) = p1 :: ps' := by
+        cases hp : splitDots (escQ s) with
+        | nil => have := splitDots_eq_nil _ hp; simp [this] at hlong
+        | cons p1 ps' => exact ⟨p1, ps', rfl⟩
+      have hno := pieces_no_newline s hnl
+      have hB : literalSplits st (splitDots (escQ s)) st.curpos st.spaceLast true = false := by
+        simp only [splitParen, Bool.true_and, Bool.or_eq_true, not_or, Bool.not_eq_true] at hpar
+        exact hpar.2
+      rw [hps] at hB hno
+      obtain ⟨W, hW, ht⟩ := literalSplits_first st p1 ps' hno hB
+      have hflat : (p1 :: ps').flatten = escQ s := by rw [← hps]; exact C07_splitDots_flatten _
+      refine ⟨W, [' '], hW, Or.inr rfl, ?_⟩
+      simp only [hpar, Bool.false_eq_true, if_false, text_raw, hps, ht, hflat]
+      simp [List.append_assoc]
+
 end StepModel.Express
